@@ -668,6 +668,8 @@ fn composition_leg(prop: Prop, tier: Tier) -> Acc {
         let bad = match prop {
             Prop::C01 => matches!(obs, Obs::Panic(_)) || (matches!(exp, Err(RErr::Overflow)) && matches!(obs, Obs::Ok(_))),
             Prop::C02 => conforms(&exp, &obs) == Some(false),
+            // a None arising deep inside: the composite must still follow the None rules
+            Prop::C04 => format!("{tree:?}").contains("Val(None)") && conforms(&exp, &obs) == Some(false),
             _ => false,
         };
         if bad {
@@ -784,7 +786,7 @@ pub fn run(prop: Prop, tier: Tier) -> i32 {
     let new2 = results2.iter().filter(|v| !v0set.contains(*v) && !results1.contains(*v)).count();
 
     // composition (C01: no panic; C02: composite = composition of sub-results)
-    if matches!(prop, Prop::C01 | Prop::C02) {
+    if matches!(prop, Prop::C01 | Prop::C02 | Prop::C04) {
         rep.absorb(composition_leg(prop, tier));
         rep.bound("composition", tier.pick("depth 2: every kind in every child position of every kind x all leaf tuples over an 8-value pool", "as quick + chains of three kinds along every spine over a 3-value pool"));
     }
